@@ -29,7 +29,7 @@ type GlobalModel struct {
 	// value refers to may still be written through a copy, so only values without interior (scalars, strings,
 	// interfaces compared for identity or nil-ness, function values) are resolved through it
 	shallow map[*ssa.Global]bool
-	inits map[*ssa.Function]bool
+	inits   map[*ssa.Function]bool
 }
 
 func (p *Program) Globals() *GlobalModel {
